@@ -641,6 +641,33 @@ theorem collocRow_sum_one [IsStrictOrderedRing K] (S : Space K) (hadm : S.Admiss
     rw [zipIdx_map_fst_sum]
     exact basisFuns_sum_one S.t ht S.degree span x (hcell span hb.1 hb.2)
 
+/-! ### the uniform-cubic path -/
+
+theorem cuFindSpan_bounds (trunc : K → ℤ) (xmin dx x : K) (ncells : ℕ)
+    (h0 : 0 ≤ trunc ((x - xmin) / dx)) (h1 : trunc ((x - xmin) / dx) ≤ ncells) (hnc : 0 < ncells) :
+    3 ≤ (cuFindSpan trunc xmin dx x (ncells : ℤ)).1.toNat ∧ (cuFindSpan trunc xmin dx x (ncells : ℤ)).1.toNat < ncells + 3 ∧
+    ((cuFindSpan trunc xmin dx x (ncells : ℤ)).1 - 3).toNat = (cuFindSpan trunc xmin dx x (ncells : ℤ)).1.toNat - 3 := by
+  unfold cuFindSpan
+  simp only
+  split_ifs with h
+  · simp only; omega
+  · simp only; omega
+
+theorem cuEval_eq_collocRow (trunc : K → ℤ) (xmin dx x : K) (ncells : ℕ) (periodic : Bool)
+    (h0 : 0 ≤ trunc ((x - xmin) / dx)) (h1 : trunc ((x - xmin) / dx) ≤ ncells) (hnc : 0 < ncells)
+    (hper : periodic = true → 3 ≤ ncells) (c : ℕ → K) (hw : Wrapped periodic (cuNb ncells periodic) 3 c) :
+    cuEvalSpline1D trunc xmin dx (ncells : ℤ) c x false
+      = ∑ j ∈ range (cuNb ncells periodic), cuCollocRow trunc xmin dx ncells (cuNb ncells periodic) periodic x j * c j := by
+  obtain ⟨b1, b2, b3⟩ := cuFindSpan_bounds trunc xmin dx x ncells h0 h1 hnc
+  unfold cuEvalSpline1D cuCollocRow
+  simp only [cuBasisOrDer, Bool.false_eq_true, if_false]
+  rw [b3]
+  apply dotFrom_eq_rowOf periodic (cuNb ncells periodic) 3 _ _ c (by simp [cuBasisFuns]) b1
+  · unfold cuNb; split_ifs <;> omega
+  · intro h; unfold cuNb; rw [h]; simp; omega
+  · intro h; have := hper h; unfold cuNb; rw [h]; simp; omega
+  · exact hw
+
 /-! ### a concrete instance (non-vacuity of the C08/C09 hypotheses): degree 2, periodic, 3 uniform cells on [0,3] -/
 namespace Inst
 def S : Space ℚ := ⟨fun i => (i : ℚ) - 2, 8, 2, true⟩
